@@ -237,6 +237,8 @@ def build_trace(sc: dict, gens: list, ref: Reference):
                     rec["wantkeep"] = o["max"] if o.get("max") is not None else sc["keep"]
                     rec["wantasync"] = o["async"] if o.get("async") is not None else sc["isasync"]
                     rec["wantdir"] = dirs.get(o.get("new_dir"), 1) if o.get("new_dir") else 1
+                    if rec["nfreq"] == 0 and rec["wantfreq"] == 0:
+                        rec["wantdir"] = rec["ndir"]      # checkpointing disabled: no directory is set up
                 else:
                     rec["wantfreq"], rec["wantkeep"], rec["wantasync"], rec["wantdir"] = (
                         rec["nfreq"], rec["nkeep"], rec["nasync"], rec["ndir"])
@@ -283,6 +285,16 @@ def run_scenario(sc: dict, workdir: Path):
     prev_digest = None
     for gi, g in enumerate(sc["gens"]):
         ops = json.loads(json.dumps(g["ops"]).replace("@A", A).replace("@B", B))
+        expanded = []
+        for o in ops:
+            if o["op"] == "restore_each":
+                # one explicit-step restore per step directory present right now (post-mortem)
+                names = sorted(int(n) for n in os.listdir(A) if n.isdigit()) if os.path.isdir(A) else []
+                for st in names:
+                    expanded.append({"op": "restore" if sc["fullconfig"] else "load", "dir": A, "step": st})
+            else:
+                expanded.append(o)
+        ops = expanded
         tr = base / f"gen{gi}.ndjson"
         spec = {"problem": sc["problem"], "kind": sc["kind"], "solver_kw": kw, "ops": ops}
         rc, err = run_gen(spec, tr, kill_at=g.get("kill_at"), shim_kill=g.get("shim_kill"),
